@@ -259,6 +259,29 @@ def exit_tests(prog, summ, f, loop, pm):
     an iteration, makes the loop exit; only tests evaluated on every iteration are returned."""
     tests = []
     init, cond, inc, body = flow.loop_parts(loop)
+    depth = [0]
+
+    def flag_def(c):
+        """the single in-loop definition of an integer flag local, or None"""
+        c = strip(c)
+        while c.get('kind') == 'ParenExpr':
+            c = strip(kids(c)[0])
+        if not (c.get('kind') == 'DeclRefExpr' and not fe.is_float_type(c) and c['referencedDecl'].get('kind') == 'VarDecl'):
+            return None
+        did = c['referencedDecl'].get('id')
+        defs = []
+        for n in walk(loop):
+            if n.get('kind') == 'VarDecl' and n.get('id') == did and kids(n):
+                defs.append(kids(n)[-1])
+            if n.get('kind') in ('BinaryOperator', 'CompoundAssignOperator') and n.get('opcode', '').endswith('=') and n.get('opcode') not in ('==', '!=', '<=', '>=') \
+                    and fe.ref_id(kids(n)[0]) == did:
+                defs.append(kids(n)[1] if n.get('opcode') == '=' else None)
+        outside = any(n.get('kind') in ('BinaryOperator', 'CompoundAssignOperator') and n.get('opcode', '').endswith('=') and
+                      n.get('opcode') not in ('==', '!=', '<=', '>=') and fe.ref_id(kids(n)[0]) == did and not any(m is n for m in walk(loop))
+                      for n in walk(f.body))
+        if len(defs) == 1 and defs[0] is not None and not outside:
+            return defs[0]
+        return None
 
     def from_cond(c, positive):
         # exit happens when (c == positive) ... we need atoms A such that A => exit.
@@ -273,6 +296,25 @@ def exit_tests(prog, summ, f, loop, pm):
             return from_cond(a, False) + from_cond(b, False)
         if c.get('kind') == 'UnaryOperator' and c.get('opcode') == '!':
             return from_cond(kids(c)[0], not positive)
+        if c.get('kind') == 'DeclRefExpr' and not fe.is_float_type(c) and c['referencedDecl'].get('kind') == 'VarDecl':
+            # an integer flag that holds the compound exit condition:  int finished = (conv < eps || iter >= cap);  if (!finished) continue;
+            did = c['referencedDecl'].get('id')
+            defs = []
+            for n in walk(loop):
+                if n.get('kind') == 'VarDecl' and n.get('id') == did and kids(n):
+                    defs.append(kids(n)[-1])
+                if n.get('kind') in ('BinaryOperator', 'CompoundAssignOperator') and n.get('opcode', '').endswith('=') and n.get('opcode') not in ('==', '!=', '<=', '>=') \
+                        and fe.ref_id(kids(n)[0]) == did:
+                    defs.append(kids(n)[1] if n.get('opcode') == '=' else None)
+            outside = any(n.get('kind') in ('BinaryOperator', 'CompoundAssignOperator') and n.get('opcode', '').endswith('=') and
+                          n.get('opcode') not in ('==', '!=', '<=', '>=') and fe.ref_id(kids(n)[0]) == did and not any(m is n for m in walk(loop))
+                          for n in walk(f.body))
+            if len(defs) == 1 and defs[0] is not None and not outside and depth[0] < 3:
+                depth[0] += 1
+                try:
+                    return from_cond(defs[0], positive)
+                finally:
+                    depth[0] -= 1
         for cj in exprs.conjuncts(c, not positive):
             if cj[0] == '<=0':
                 out.append(cj)
@@ -363,23 +405,42 @@ def exit_tests(prog, summ, f, loop, pm):
             continue
         if leaves_t:
             # (A || B) => exit: each disjunct alone implies exit
-            tests += [(t_, g) for t_ in from_cond_disj(c, True)]
+            tests += [(t_, g) for t_ in from_cond_disj(c, True, flag_def)]
         if leaves_e:
-            tests += [(t_, g) for t_ in from_cond_disj(c, False)]
+            tests += [(t_, g) for t_ in from_cond_disj(c, False, flag_def)]
+    # early-continue shape:  if (!finished) { ...; continue; }  <rest of the body that always leaves>  -- the loop exits when the condition is false
+    top_body = strip(body)
+    if top_body.get('kind') == 'CompoundStmt':
+        ks_ = [strip(x) for x in kids(top_body)]
+        for i_, s in enumerate(ks_):
+            if s.get('kind') != 'IfStmt':
+                continue
+            c, t, e = flow.if_parts(s)
+            if e is not None or flow.exits(t) != {'continue'}:
+                continue
+            rest = {'kind': 'CompoundStmt', 'inner': ks_[i_ + 1:]}
+            er = flow.exits(rest)
+            if er and 'continue' not in er and not any(x.get('kind') == 'ContinueStmt' for y in ks_[:i_] for x in walk(y)
+                                                       if not any(a.get('kind') in flow.LOOPS for a in [y])):
+                tests += [(t_, []) for t_ in from_cond_disj(c, False, flag_def)]
     return tests
 
 
-def from_cond_disj(c, positive):
+def from_cond_disj(c, positive, resolver=None, _d=0):
     """atoms A (canonical '<=0') such that A => (c == positive)"""
     c = strip(c)
+    if resolver is not None and _d < 3:
+        r_ = resolver(c)
+        if r_ is not None:
+            return from_cond_disj(r_, positive, resolver, _d + 1)
     if c.get('kind') == 'BinaryOperator' and c.get('opcode') == '||' and positive:
         a, b = kids(c)
-        return from_cond_disj(a, True) + from_cond_disj(b, True)
+        return from_cond_disj(a, True, resolver, _d) + from_cond_disj(b, True, resolver, _d)
     if c.get('kind') == 'BinaryOperator' and c.get('opcode') == '&&' and not positive:
         a, b = kids(c)
-        return from_cond_disj(a, False) + from_cond_disj(b, False)
+        return from_cond_disj(a, False, resolver, _d) + from_cond_disj(b, False, resolver, _d)
     if c.get('kind') == 'UnaryOperator' and c.get('opcode') == '!':
-        return from_cond_disj(kids(c)[0], not positive)
+        return from_cond_disj(kids(c)[0], not positive, resolver, _d)
     if c.get('kind') == 'BinaryOperator' and c.get('opcode') in ('&&', '||'):
         return []
     return [cj for cj in exprs.conjuncts(c, positive) if cj[0] == '<=0']
